@@ -619,7 +619,9 @@ func conclude(c *ctx, outs []procOut, t0 time.Time, isReplay bool) int {
 		WallS:       time.Since(t0).Seconds(), Violations: len(unlisted), Verdict: verdict}
 	os.MkdirAll(filepath.Join(verifDir, "evidence"), 0o755)
 	b, _ := json.MarshalIndent(&ev, "", " ")
-	if err := os.WriteFile(filepath.Join(verifDir, "evidence", spec.ID+".json"), append(b, '\n'), 0o644); err != nil {
+	if os.Getenv("VERIF_NO_EVIDENCE") != "" {
+		// self-test runs against seeded changes must not overwrite the evidence of the real tree
+	} else if err := os.WriteFile(filepath.Join(verifDir, "evidence", spec.ID+".json"), append(b, '\n'), 0o644); err != nil {
 		die(2, "HARNESS-ERROR evidence: %v", err)
 	}
 	fmt.Printf("%s %s seed=%d verdict=%s evaluations=%d distinct_nontrivial=%d violations=%d wall=%.1fs\n", spec.ID, c.tier, c.seed, verdict, evals, distinct, len(unlisted), time.Since(t0).Seconds())
